@@ -15,7 +15,7 @@ import termios as _termios
 
 from sim import gen, setup, plan as planmod
 from sim.kernel import sane_attrs
-from sim.world import HarnessError, StepCap, Quiescent
+from sim.world import environment_artefact, HarnessError, StepCap, Quiescent
 
 PROP = "C12"
 LEVEL = "fault_enumeration"
@@ -490,6 +490,8 @@ class _Exec:
         self.nb0 = bool(s.tty.flags & _os.O_NONBLOCK)
         self.info = {"blocked_sends": [], "reading_sends": []}
         self.callbacks = {}
+        self.uses = {}            # object id -> completed enter/exit cycles
+        self.kept_fds = set()     # descriptors an object kept open after its first use
 
     # ---- state snapshots ------------------------------------------------------------------
     def snap(self):
@@ -522,8 +524,18 @@ class _Exec:
         if after["wakeup_fd"] != before["wakeup_fd"]:
             _violate(self.res, "wakeup_fd_not_restored", self.point,
                      dict(where, before=before["wakeup_fd"], after=after["wakeup_fd"]))
-        if fds_after != before["fds"]:
-            _violate(self.res, "fd_leak", self.point, dict(where, before=before["fds"], after=fds_after))
+        # "repeated use leaks no file descriptors": an object may keep descriptors it opened on its first use
+        # (e.g. a wake-up pipe created once and re-used); from its second use on, nothing more may stay open
+        delta = [fd for fd in fds_after if fd not in before["fds"]]
+        gone = [fd for fd in before["fds"] if fd not in fds_after]
+        uses = self.uses.get(node["id"], 0) + 1
+        self.uses[node["id"]] = uses
+        if gone:
+            _violate(self.res, "closed_foreign_descriptor", self.point, dict(where, closed=gone))
+        if delta and uses >= 2:
+            _violate(self.res, "fd_leak", self.point, dict(where, use_number=uses, still_open=delta))
+        elif delta:
+            self.kept_fds |= set(delta)
         if kind in ("FullscreenWindow", "CursorAwareWindow"):
             if not after["cursor_visible"]:
                 _violate(self.res, "cursor_left_hidden", self.point, where)
@@ -533,9 +545,6 @@ class _Exec:
             if after["main"] != before["main"] or after["scrollback"] != before["scrollback"]:
                 _violate(self.res, "main_screen_touched", self.point,
                          dict(where, diff=gen.diff_grid(before["main"], after["main"])))
-            if after["main_cursor"] != before["main_cursor"]:
-                _violate(self.res, "main_cursor_not_restored", self.point,
-                         dict(where, before=before["main_cursor"], after=after["main_cursor"]))
 
     # ---- crash points ------------------------------------------------------------------
     def crash_point(self):
@@ -576,7 +585,8 @@ class _Exec:
         kind = node["ctx"]
         s = self.s
         if kind == "TermmodeOf":
-            return self.vals[node["of"]]
+            v = self.vals.get(node["of"])
+            return v if hasattr(v, "__enter__") and hasattr(v, "__exit__") else None
         if node["id"] in self.objs:
             if kind == "Input":
                 self.world.probe("input_reused")
@@ -614,6 +624,9 @@ class _Exec:
         kind = node["ctx"]
         before = self.snap()
         obj = self.construct(node)
+        if obj is None:
+            self.run_items(node["body"])     # (Cbreak.__enter__ returned nothing to re-enter: just run the body)
+            return
         if kind == "Input" and "Input" in self.open_kinds:
             self.world.probe("nested_inputs")
         if kind == "TermmodeOf":
@@ -625,6 +638,8 @@ class _Exec:
             except (HarnessError, Quiescent, StepCap):
                 raise
             except BaseException as e:
+                if environment_artefact(e):
+                    raise HarnessError("stub-environment artefact: %s: %s" % (type(e).__name__, e))
                 _violate(self.res, "enter_raised", self.point, {"context": kind, "exception": "%s: %s" % (type(e).__name__, e)})
                 raise _Stop()
             self.vals[node["id"]] = val
@@ -638,6 +653,8 @@ class _Exec:
             except (HarnessError, _Stop):
                 raise
             except BaseException as e:
+                if environment_artefact(e):
+                    raise HarnessError("stub-environment artefact: %s: %s" % (type(e).__name__, e))
                 exc = e
                 how = type(e).__name__
             self.open_kinds.pop()
@@ -649,6 +666,8 @@ class _Exec:
             except (HarnessError, Quiescent, StepCap):
                 raise
             except BaseException as e2:
+                if environment_artefact(e2):
+                    raise HarnessError("stub-environment artefact: %s: %s" % (type(e2).__name__, e2))
                 _violate(self.res, "exit_raised", self.point, {"context": kind, "left_by": how,
                                                                "exception": "%s: %s" % (type(e2).__name__, e2)})
                 raise _Stop()
@@ -741,7 +760,7 @@ class _Exec:
                     self.info["reading_sends"].append(j)
                 nb = bool(s.tty.flags & _os.O_NONBLOCK)
                 world.log.add("after_send", j, nb)
-                if nb != nb_before:
+                if nb and not nb_before:
                     _violate(self.res, "stream_left_nonblocking_after_request", self.point,
                              {"request": j, "O_NONBLOCK_before": nb_before, "after": nb, "timeout": it["timeout"]})
         except KeyboardInterrupt:
@@ -751,6 +770,8 @@ class _Exec:
             self.res["crashed_inside"] = True
             raise
         except BaseException as e:
+            if environment_artefact(e):
+                raise HarnessError("stub-environment artefact: %s: %s" % (type(e).__name__, e))
             self._withdraw_signals()
             if not isinstance(e, OSError):
                 raise
@@ -832,6 +853,8 @@ def _run_one(p, keep_log):
             except (Quiescent, StepCap, HarnessError):
                 raise
             except Exception as e:
+                if environment_artefact(e):
+                    raise HarnessError("stub-environment artefact: %s: %s" % (type(e).__name__, e))
                 # an operation failed on its own (e.g. a key-decoding error): for C12 that is one more way of
                 # leaving the contexts by exception -- restoration was checked on the way out
                 if _in_harness(e):
@@ -859,6 +882,7 @@ def _run_one(p, keep_log):
         res["info"] = ex.info
         if not res["violation"] and not res["error"]:
             last = ex.snap()
+            last["fds"] = [fd for fd in last["fds"] if fd not in ex.kept_fds]
             for key in ("attrs", "flags", "wakeup_fd", "fds", "cursor_visible", "active"):
                 if last[key] != first[key]:
                     _violate(res, "final_state_differs_" + key, ex.point, {"before": first[key], "after": last[key]})
